@@ -78,6 +78,8 @@ def run_case(mod, spec):
 
 def _worker(args):
     pid, tier, seed, widx, n_examples, shrink_budget = args
+    import faulthandler, signal
+    faulthandler.register(signal.SIGUSR1, all_threads=True)
     import hypothesis
     from hypothesis import given, settings, HealthCheck, Phase
     mod = load_module(pid)
@@ -121,6 +123,17 @@ def _worker(args):
         if stats.failure is None and stats.harness is None:
             stats.harness = traceback.format_exc()
     return stats.as_dict()
+
+
+def _replay_job(args):
+    pid, path = args
+    mod = load_module(pid)
+    try:
+        with core.quiet():
+            out, _ = replay_file(mod, path)
+        return (path, out.violations, None)
+    except Exception:
+        return (path, None, traceback.format_exc())
 
 
 def merge(dicts):
@@ -206,68 +219,59 @@ def main(argv=None):
     known_lines = []
     harness = None
     replays_run = 0
-
-    # ------------------------------------------------------------ known findings + regression replays
-    known = [k for k in load_known() if k.get("property") == pid]
-    open_known = [k for k in known if k.get("status") == "open"]
-    open_files = set()
-    for k in open_known:
-        path = os.path.join(ROOT, k["replay"])
-        open_files.add(os.path.abspath(path))
-        try:
-            out, _ = replay_file(mod, path)
-            replays_run += 1
-        except Exception:
-            harness = traceback.format_exc()
-            continue
-        if out.violations:
-            line = "KNOWN-FINDING: property=%s %s" % (pid, k["what"])
-            print(line)
-            known_lines.append(line)
-        else:
-            print("note: listed finding %s no longer reproduces (%s)" % (k.get("id"), k["what"]))
-    for path in sorted(glob.glob(os.path.join(REPLAY_DIR, pid, "*.json"))):
-        if os.path.abspath(path) in open_files:
-            continue
-        try:
-            out, _ = replay_file(mod, path)
-            replays_run += 1
-        except Exception:
-            harness = traceback.format_exc()
-            continue
-        if out.violations:
-            violations.append((None, out.violations, path))
-
-    # ------------------------------------------------------------ exhaustive / enumerated part
     exh = None
-    if hasattr(mod, "exhaustive") and not violations and harness is None:
-        try:
-            exh = mod.exhaustive(tier, seed, a.workers)
-        except Exception:
-            harness = traceback.format_exc()
-        if exh and exh.get("failures"):
-            spec, msgs = exh["failures"][0]
-            violations.append((spec, msgs, None))
-
-    # ------------------------------------------------------------ generated part
     tot = Stats()
-    n_total = a.examples or mod.EXAMPLES[tier]
-    if not violations and harness is None and n_total > 0:
-        W = max(1, min(a.workers, n_total // 8 or 1))
-        per = max(1, n_total // W)
-        shrink_budget = getattr(mod, "SHRINK_BUDGET", {"quick": 250, "thorough": 1200})[tier]
-        jobs = [(pid, tier, seed, w, per, shrink_budget) for w in range(W)]
-        if W == 1:
-            res = [_worker(jobs[0])]
-        else:
-            ctx = multiprocessing.get_context("fork")
-            with ctx.Pool(W) as pool:
-                res = list(pool.imap_unordered(_worker, jobs))
-        tot = merge(res)
-        if tot.harness is not None:
-            harness = tot.harness
-        if tot.failure is not None:
-            violations.append((tot.failure[0], tot.failure[1], None))
+    # All solver work happens in forked children; the parent stays free of solver state
+    # (HiGHS' task scheduler does not survive a fork once it has been used in the parent).
+    ctx = multiprocessing.get_context("fork")
+    pool = ctx.Pool(max(1, a.workers))
+    try:
+        # -------------------------------------------------------- known findings + regression replays
+        known = [k for k in load_known() if k.get("property") == pid]
+        open_known = {os.path.abspath(os.path.join(ROOT, k["replay"])): k for k in known if k.get("status") == "open"}
+        paths = sorted(set(list(open_known) + [os.path.abspath(p) for p in glob.glob(os.path.join(REPLAY_DIR, pid, "*.json"))]))
+        for path, viol, err in pool.map(_replay_job, [(pid, p) for p in paths]):
+            if err is not None:
+                harness = err
+                continue
+            replays_run += 1
+            if path in open_known:
+                k = open_known[path]
+                if viol:
+                    line = "KNOWN-FINDING: property=%s %s" % (pid, k["what"])
+                    print(line)
+                    known_lines.append(line)
+                else:
+                    print("note: listed finding %s no longer reproduces (%s)" % (k.get("id"), k["what"]))
+            elif viol:
+                violations.append((None, viol, path))
+
+        # -------------------------------------------------------- exhaustive / enumerated part
+        if hasattr(mod, "exhaustive") and not violations and harness is None:
+            try:
+                exh = mod.exhaustive(tier, seed, pool)
+            except Exception:
+                harness = traceback.format_exc()
+            if exh and exh.get("failures"):
+                spec, msgs = exh["failures"][0]
+                violations.append((spec, msgs, None))
+
+        # -------------------------------------------------------- generated part
+        n_total = a.examples or mod.EXAMPLES[tier]
+        if not violations and harness is None and n_total > 0:
+            W = max(1, min(a.workers, n_total // 8 or 1))
+            per = max(1, n_total // W)
+            shrink_budget = getattr(mod, "SHRINK_BUDGET", {"quick": 250, "thorough": 1200})[tier]
+            jobs = [(pid, tier, seed, w, per, shrink_budget) for w in range(W)]
+            res = list(pool.imap_unordered(_worker, jobs))
+            tot = merge(res)
+            if tot.harness is not None:
+                harness = tot.harness
+            if tot.failure is not None:
+                violations.append((tot.failure[0], tot.failure[1], None))
+    finally:
+        pool.terminate()
+        pool.join()
 
     # ------------------------------------------------------------ evidence
     evaluations = tot.evaluations + replays_run
